@@ -18,6 +18,13 @@ fn vals_small_signed(n: usize, salt: usize, var: u64) -> Vec<f64> {
     if n >= 3 {
         v[2] = 0.0;
     }
+    // magnitudes far below any plausible epsilon: thresholds other than exactly 0 would show
+    if n >= 5 {
+        v[4] = 1.0e-20;
+    }
+    if n >= 6 {
+        v[5] = -1.0e-20;
+    }
     v
 }
 
